@@ -3332,7 +3332,10 @@ fn get_discovered_reader_incompatible_qos_policy_list(
     if &writer_qos.latency_budget > discovered_reader_data.latency_budget() {
         incompatible_qos_policy_list.push(LATENCYBUDGET_QOS_POLICY_ID);
     }
-    if &writer_qos.liveliness < discovered_reader_data.liveliness() {
+    // offered kind must be at least the requested one and the offered lease duration at most the requested one
+    if writer_qos.liveliness.kind < discovered_reader_data.liveliness().kind
+        || writer_qos.liveliness.lease_duration > discovered_reader_data.liveliness().lease_duration
+    {
         incompatible_qos_policy_list.push(LIVELINESS_QOS_POLICY_ID);
     }
     if writer_qos.reliability.kind < discovered_reader_data.reliability().kind {
@@ -3391,7 +3394,11 @@ fn get_discovered_writer_incompatible_qos_policy_list(
     if &data_reader.qos.latency_budget < publication_builtin_topic_data.latency_budget() {
         incompatible_qos_policy_list.push(LATENCYBUDGET_QOS_POLICY_ID);
     }
-    if &data_reader.qos.liveliness > publication_builtin_topic_data.liveliness() {
+    // requested kind must be at most the offered one and the requested lease duration at least the offered one
+    if data_reader.qos.liveliness.kind > publication_builtin_topic_data.liveliness().kind
+        || data_reader.qos.liveliness.lease_duration
+            < publication_builtin_topic_data.liveliness().lease_duration
+    {
         incompatible_qos_policy_list.push(LIVELINESS_QOS_POLICY_ID);
     }
     if data_reader.qos.reliability.kind > publication_builtin_topic_data.reliability().kind {
